@@ -8,7 +8,9 @@ TNext ==
    /\ LET ev == TraceLog[l] IN
       IF ev.e = "Reset" THEN TRUE
       ELSE IF ev.e = "Fault" THEN Flag(l, <<"fault">>, [kind |-> ev.kind, where |-> ev.where])
-      ELSE LET exp == [out |-> Def(ev.fn, ev.in)]
+      \* a hexadecimal text of odd length is not something the encoder produces: what the decoder makes of it is not constrained, but it
+      \* must stay inside an output buffer that has room for the whole pairs (guard bytes; reads and writes beyond them are ASan's)
+      ELSE LET exp == IF ev.fn = "hexdec_c_odd" THEN [out |-> ev.out] ELSE [out |-> Def(ev.fn, ev.in)]
                mm == Mismatch(ev, exp) \cup (IF ev.g = 1 /\ (ev.gl # Guard \/ ev.gr # Guard) THEN {"guard"} ELSE {})
            IN IF mm # {} THEN Flag(l, SetToSeq(mm), exp) ELSE TRUE
 TSpec == TInit /\ [][TNext]_<<l, sync>>
